@@ -3,6 +3,7 @@ import Bng.Drv.XdpDhcp
 import Bng.Drv.TcSafe
 import Bng.Drv.Decoders
 import Bng.Drv.Coa
+import Bng.Drv.CoaProc
 import Bng.Drv.Acct
 import Bng.Drv.AcctBackoff
 import Bng.Drv.AcctDirect
@@ -43,6 +44,7 @@ def components : List (String × Component) := [
   ("tcprogs", TcSafeDrv.component),
   ("decoders", DecodersDrv.component),
   ("coa", CoaDrv.component),
+  ("coaproc", CoaProcDrv.component),
   ("acct", AcctDrv.component),
   ("acctretry", AcctBackoffDrv.component),
   ("acctdirect", AcctDirectDrv.component),
